@@ -9,6 +9,9 @@ SCENARIOS = {
     "2-iter+die": [["iter:none"], ["iter:np"], ["kernel:die:B"]],
     "2-iter+spawn": [["iter:np"], ["iter:none"], ["kernel:spawn:D"]],
     "iter-vs-clear": [["iter:none", "iter:none"], ["clear"]],
+    # A and B were both recycled after a first iteration; A's recycling has been noticed already (pending in the module's
+    # to-do set) when one thread iterates while the other notices B's
+    "iter-vs-is_running": [["iter:none"], ["isr:B"], ],
 }
 ATTRS = {"none": None, "np": ["name", "ppid"]}
 PIDS = {"A": 510, "B": 520, "C": 530, "D": 525}
@@ -33,6 +36,13 @@ class Harness:
         use_world(w)
         list(ps.process_iter())          # warm cache: identity across later iterations is observable
         warm = dict(ps._pmap)
+        if self.scn == "iter-vs-is_running":
+            for s_ in ("A", "B"):
+                w.vanish(PIDS[s_])
+            for s_ in ("A", "B"):
+                w.tick(5)
+                w.spawn(PIDS[s_], ppid=1, comm=b"new" + s_.encode())
+            warm[PIDS["A"]].is_running()
         ev = []
 
         def hook(world, kind, subj, pid):
@@ -47,6 +57,9 @@ class Harness:
                         listed0 = sorted(w.procs)
                         o = outcome(lambda: [(p.pid, p, getattr(p, "info", None)) for p in ps.process_iter(attrs=ATTRS[step[5:]])])
                         ev.append(("iter", sc.current(), step[5:], listed0, sorted(w.procs), o))
+                    elif step.startswith("isr:"):
+                        o = outcome(warm[PIDS[step[4:]]].is_running)
+                        ev.append(("isr", sc.current(), o))
                     elif step == "clear":
                         o = outcome(ps.process_iter.cache_clear)
                         ev.append(("clear", sc.current(), o))
@@ -69,6 +82,7 @@ class Harness:
         a = outcome(lambda: list(ps.process_iter()))
         b = outcome(lambda: list(ps.process_iter()))
         x.after = (a, b, sorted(w.procs))
+        x.recycled = {PIDS["A"], PIDS["B"]} if self.scn == "iter-vs-is_running" else set()
         x.events = ev
         x.warm = warm
         return x
@@ -83,6 +97,8 @@ def judge(x):
     for e in x.events:
         if e[0] == "clear" and e[2][0] != "ok":
             out.append(("cache_clear-raised:%s" % e[2][1], repr(e[2])))
+        if e[0] == "isr" and e[2] != ("ok", False):
+            out.append(("is_running-of-a-recycled-pid", repr(e[2])))
         if e[0] != "iter":
             continue
         _, th, akey, listed0, listed1, o = e
@@ -94,7 +110,11 @@ def judge(x):
             out.append(("iter-order-or-duplicates", "thread %s yielded %r" % (th, pids)))
         always = set(listed0) & set(listed1)
         ever = set(listed0) | set(listed1)
-        if not (always <= set(pids) <= ever):
+        rec = getattr(x, "recycled", set())
+        if rec and set(pids) <= ever and (always - set(pids)) and (always - set(pids)) <= rec:
+            # the iteration that acts on a noticed recycling drops the old entry without yielding a fresh one: the recorded finding
+            out.append(("iter-omits-recycled-pid-once", "thread %s did not yield recycled pid(s) %r" % (th, sorted(always - set(pids)))))
+        elif not (always <= set(pids) <= ever):
             out.append(("iter-coverage", "thread %s yielded %r; listed throughout %r, ever %r" % (th, pids, sorted(always), sorted(ever))))
         if ATTRS[akey] is not None:
             for pid, p, info in o[1]:
@@ -105,7 +125,11 @@ def judge(x):
         out.append(("sequential-iter-raised", repr((a, b))[:300]))
     else:
         pa, pb = [p.pid for p in a[1]], [p.pid for p in b[1]]
-        if pa != listed or pb != listed:
+        rec = getattr(x, "recycled", set())
+        if rec and pb == listed and set(pa) <= set(listed) and (set(listed) - set(pa)) <= rec and pa == sorted(pa):
+            out.append(("iter-omits-recycled-pid-once", "first sequential iteration after the concurrent phase omitted %r"
+                        % sorted(set(listed) - set(pa)))) if pa != listed else None
+        elif pa != listed or pb != listed:
             out.append(("sequential-iter-coverage", "after the concurrent phase: %r / %r, table %r" % (pa, pb, listed)))
         elif any(p is not q for p, q in zip(a[1], b[1])):
             out.append(("sequential-iter-identity", "two sequential iterations yielded different objects for the same listed pids"))
